@@ -9,7 +9,8 @@ func parseTxt(txt []string) map[string]string {
 	result := make(map[string]string)
 
 	for _, item := range txt {
-		s := strings.Split(item, "=")
+		// only the first = separates key and value, the value may contain = chars
+		s := strings.SplitN(item, "=", 2)
 		if len(s) != 2 {
 			continue
 		}
